@@ -136,6 +136,12 @@ class TwoEndedLink(link.Link):
         if (new is not None) and (self not in new.links):
             new.add_to_link(self)
 
+        # every vertex that is, or was, on this link now has another neighbor
+        if old is not None:
+            # pylint: disable-next=protected-access
+            old._qa_neighbors_invalidate()
+        self._invalidate_ends()
+
     def other(self, end: Vertex) -> Vertex | None:
         """
         Identify and return the other end of this edge.
